@@ -112,13 +112,23 @@ impl Sub for TopK {
             1 => Just(Key::Tweak),
             1 => Just(Key::NumThenScore),
         ];
-        let probe = (sq, 0u8..6, prop_oneof![4 => Just(0u8), 1 => 1u8..6], key).prop_map(|(q, k, o, key)| Probe { q, k, o, key });
-        (corpus_strategy(tier.pick(40, 160)), prop::collection::vec(probe, 20..41), any::<bool>())
-            .prop_map(|(mut corpus, probes, threads4)| {
+        let probe = (sq, 0u8..12, prop_oneof![4 => Just(0u8), 1 => 1u8..6], key).prop_map(|(q, k, o, key)| Probe { q, k, o, key });
+        (corpus_strategy(tier.pick(40, 160)), prop::collection::vec(probe, 20..41), any::<bool>(), 0u8..4, prop::collection::vec(any::<u16>(), 3..7))
+            .prop_map(|(mut corpus, probes, threads4, uniform, extra_cuts)| {
                 // >= 3 uneven segments often
                 if corpus.cuts.len() < 2 {
                     corpus.cuts.push(9000);
                     corpus.cuts.push(41000);
+                }
+                if uniform == 0 && !corpus.docs.is_empty() {
+                    // massive ties: every document identical (same score, same keys), many small segments, no
+                    // deletes: the result is decided by the address tie-break alone
+                    let d0 = corpus.docs[0].clone();
+                    let n = corpus.docs.len().min(12);
+                    corpus.docs = vec![d0; n];
+                    corpus.repeat = corpus.repeat.min(5);
+                    corpus.cuts = extra_cuts;
+                    corpus.marks = vec![0; corpus.marks.len()];
                 }
                 TopKCase { corpus, probes, threads4 }
             })
@@ -159,7 +169,9 @@ impl Sub for TopK {
                 2 => 3,
                 3 => 10,
                 4 => n.max(1),
-                _ => n + 5,
+                5 => n + 5,
+                // 4..=9: the buffer of 2K entries is truncated in the middle of the per-segment results
+                x => x as usize - 2,
             };
             let o = match p.o {
                 0 => 0,
